@@ -78,6 +78,7 @@ def _run_call(ctx, spec, block, dtype, form, zoo=None):
     mini["form"] = form
     try:
         s0 = W.snap_prims(zoo.prims) if zoo is not None else None
+        decl0 = [q.dtype for q in zoo.prims] if zoo is not None else None
         a0 = c.snap()
         raised = False
         try:
@@ -95,6 +96,13 @@ def _run_call(ctx, spec, block, dtype, form, zoo=None):
         s1 = W.snap_prims(zoo.prims) if zoo is not None else None
         mutated = False
         if zoo is not None:
+            for i, (q, dt0) in enumerate(zip(zoo.prims, decl0)):
+                if q.dtype != dt0:
+                    mutated = True
+                    violation(site, "declared_dtype_changed",
+                              f"{label}: the declared dtype of instrument #{i} went {dt0} -> {q.dtype} "
+                              f"({zoo.kind}/{zoo.dkind}, {block['dtype']})", observed=str(q.dtype), expected=str(dt0), block=mini)
+                    q.to(dt0)
             diffs = W.diff_prims(s0, s1)
             if spec["sim"] == "real":
                 # the real simulator ran (seeded torch RNG): the first primary's series are new; nothing else changes
@@ -698,7 +706,8 @@ def zoo_calls(z, seed, tier="quick"):
                 "expect_msg": "a feature list bound to one derivative changed when the list was bound to another"}
     add("FeatureList.of", "binding:FeatureList", prep_fl)
     # -- hedger ----------------------------------------------------------------------------------------------------------------------------------
-    hedges = {"default": None, "stock": [p], "two": [p, z.p2], "stock+listed": [p, z.listed], "listed": [z.listed]}
+    hedges = {"default": None, "stock": [p], "two": [p, z.p2], "stock+listed": [p, z.listed], "listed": [z.listed],
+              "mixed": [p, z.p3]}     # second hedging instrument declared in the other dtype
 
     def n_hedges(hv):
         return 1 if hedges[hv] is None else len(hedges[hv])
@@ -741,7 +750,11 @@ def zoo_calls(z, seed, tier="quick"):
                     continue
             if tier == "quick" and hv != "default" and mv not in ("linear", "linear_prev", "identity_log_spot"):
                 continue
-            if not rich and (hv not in ("default", "stock+listed") or (hv != "default" and mv != "linear_prev")
+            if hv == "mixed" and mv not in ("linear", "linear_prev"):
+                continue
+            if not rich and hv == "mixed" and mv == "linear":
+                pass
+            elif not rich and (hv not in ("default", "stock+listed") or (hv != "default" and mv != "linear_prev")
                              or mv in ("identity_spot", "identity_moneyness", "mlp", "naked")):
                 continue
 
